@@ -258,10 +258,13 @@ class Expression:
             elif current_token in self.unary_operators:
                 stack.append(current_token)
             elif current_token == "sizeof":
-                if len(tmp_expression) < i + 3 or (tmp_expression[i + 1] != "(" or tmp_expression[i + 3] != ")"):
+                # sizeof ( type name of one or more words )
+                end = tmp_expression.index(")", i) if ")" in tmp_expression[i:] else -1
+                words = tmp_expression[i + 2 : end]
+                if end < i + 3 or tmp_expression[i + 1] != "(" or not all(word.isidentifier() for word in words):
                     raise ExpressionParserError("Invalid sizeof operation")
-                queue.append(len(self.cstruct.resolve(tmp_expression[i + 2])))
-                i += 3
+                queue.append(len(self.cstruct.resolve(" ".join(words))))
+                i = end
             elif current_token in operators:
                 while (
                     len(stack) != 0 and stack[-1] != "(" and (self.precedence(stack[-1], current_token))
